@@ -173,23 +173,26 @@ def check(case, ctx):
     R3 = np.concatenate([R[None], case.p["others"]]) if len(case.p["others"]) else R[None]
     check_objects(case, ctx, R, theta)
     free = {"shepperd": o.shepperd, "hughes": o.hughes, "chiaverini": o.chiaverini, "itzhack": o.itzhack, "sarabandi": o.sarabandi}
-    for m, kw in METHODS:
-        mn = mname(m, kw)
+    k_sp = int(abs(case.p["angle"]) * 1e7)
+    for m_, kw in METHODS:
+        mn = mname(m_, kw)
+        m = m_
         if m not in ROBUST and theta > np.pi - 1e-6:
             # closed-form formulas divide by / take the sign of an exact zero at the half-turn: outside the
             # property's domain for these three methods (values and exceptions are recorded, not judged)
             ctx.note("closed-form method outside its domain (theta > pi-1e-6): not judged", 4)
             continue
+        ms = gens.spell(m, k_sp + len(mn))          # method names are compared case-insensitively by every entry point
         r = "DCM.to_quaternion/" + mn
-        out = call(lambda: DCM(R.copy()).to_quaternion(m, **kw))
+        out = call(lambda: DCM(R.copy()).to_quaternion(ms, **kw))
         if ctx.returned(out, route=r):
             judge(ctx, r, m, out.value, R, theta)
         r = "Quaternion(dcm=)/" + mn
-        out = call(lambda: np.asarray(ahrs.Quaternion(dcm=R.copy(), method=m, **kw)))
+        out = call(lambda: np.asarray(ahrs.Quaternion(dcm=R.copy(), method=gens.spell(m, k_sp + 1), **kw)))
         if ctx.returned(out, route=r):
             judge(ctx, r, m, out.value, R, theta)
         r = "QuaternionArray(DCM=)/" + mn
-        out = call(lambda: np.asarray(ahrs.QuaternionArray(DCM=R3.copy(), method=m, **kw)))
+        out = call(lambda: np.asarray(ahrs.QuaternionArray(DCM=R3.copy(), method=gens.spell(m, k_sp + 2), **kw)))
         if ctx.returned(out, route=r):
             judge(ctx, r, m, out.value, R, theta, shape=(len(R3), 4))
         r = "free/" + mn
@@ -202,6 +205,18 @@ def check(case, ctx):
     out = call(lambda: ahrs.Quaternion().from_DCM(R.copy()))
     if ctx.returned(out, route="Quaternion.from_DCM/default"):
         judge(ctx, "Quaternion.from_DCM/default", "shepperd", out.value, R, theta)
+    # a finely sampled slow rotation: consecutive rows differ by 1e-9 .. 1e-4 rad; every row of the result must reproduce its own matrix
+    dth = 10.0 ** (-9.0 + 5.0 * ((abs(case.p["angle"]) * 1e3) % 1.0))
+    axs = case.p["axis"] / np.linalg.norm(case.p["axis"]) if np.linalg.norm(case.p["axis"]) > 0 else np.array([0.0, 0.0, 1.0])
+    Rs = np.array([R @ rq.rodrigues(axs, k * dth) for k in range(6)])
+    for m, kw in METHODS:
+        if m not in ROBUST and (theta + 6 * dth) > np.pi - 1e-6:
+            continue
+        r = "QuaternionArray(DCM=)/" + mname(m, kw)
+        out = call(lambda: np.asarray(ahrs.QuaternionArray(DCM=Rs.copy(), method=m, **kw), float))
+        if ctx.returned(out, clause="no-exception[smooth stack]", route=r) and out.value.shape == (6, 4):
+            errs = [np.abs(rq.refR(out.value[k] / np.linalg.norm(out.value[k])) - Rs[k]).max() for k in range(6)]
+            ctx.le("every row of a smooth stack reproduces its own matrix", float(max(errs)), TOL_ROBUST if m in ROBUST else TOL_CLOSED, {"step_rad": dth, "errors": errs}, route=r)
     # Sarabandi's documented threshold option (its branches switch between two formulas for the same component: any value must give the same rotation)
     if theta <= np.pi - 1e-6:
         # (non-negative values only: with a negative threshold the first formula sqrt(1 + d) is used for components that are exactly zero, where
